@@ -356,6 +356,15 @@ class Ex:
             return {ast.Add: lambda: a + b, ast.Sub: lambda: a - b, ast.Mult: lambda: a * b,
                     ast.FloorDiv: lambda: a // b, ast.Mod: lambda: a % b,
                     ast.Pow: lambda: a ** b}[type(op)]()
+        if isinstance(op, ast.Mult):
+            for u, w in ((a, b), (b, a)):
+                if is_conc(u) and not isinstance(u, (str, bool)) and u is not None:
+                    if u == 0:
+                        return 0 if (isinstance(u, int) and z3.is_int(R(w))) else z3.RealVal(0)
+                    if u == 1 and isinstance(u, int):
+                        return w
+        if isinstance(op, (ast.Add, ast.Sub)) and is_conc(b) and b == 0 and isinstance(b, int):
+            return a
         a, b = R(a), R(b)
         if isinstance(op, ast.Div):
             return z3.simplify(toreal(a) * self.rcp(b)) if z3.is_rational_value(z3.simplify(toreal(b))) \
@@ -720,33 +729,102 @@ class Ex:
         if kind == 'skip':
             pol[1](self, s)
             return
-        if kind == 'sym':
+        if kind in ('sym', 'gen', 'symseq'):
             label = pol[1]
-            var = pol[2] if len(pol) > 2 and pol[2] is not None else z3.Int(f'{self.fp}{s.target.id}')
-            if cst > 0:
-                rng = [R(lo) <= var, var < R(hi)]
-                if cst != 1:
-                    rng.append((var - R(lo)) % cst == 0)
-            else:
-                rng = [R(hi) < var, var <= R(lo)]
-                if cst != -1:
-                    rng.append((R(lo) - var) % (-cst) == 0)
+            opts = pol[2] if len(pol) > 2 and isinstance(pol[2], dict) else {}
             if self.guards:
                 raise OutsideSubset('symbolic loop under a guard')
-            self.pc.extend(rng)
-            self.env[s.target.id] = var
-            self.take_snapshot(label + ':entry')
-            self.run(s.body)
+            if kind == 'symseq':
+                vars_ = list(opts['vars'])
+            else:
+                vars_ = [opts.get('var') if opts.get('var') is not None else z3.Int(f'{self.fp}{s.target.id}')]
+            self.take_snapshot(label + ':pre')
+            for n_it, var in enumerate(vars_):
+                var = R(var)
+                if cst > 0:
+                    rng = [R(lo) <= var, var < R(hi)]
+                    if cst != 1:
+                        rng.append((var - R(lo)) % cst == 0)
+                else:
+                    rng = [R(hi) < var, var <= R(lo)]
+                    if cst != -1:
+                        rng.append((R(lo) - var) % (-cst) == 0)
+                self.pc.extend(rng)
+                if kind in ('gen', 'symseq'):
+                    self.havoc_loop_state(s, opts, n_it)
+                self.env[s.target.id] = var
+                self.take_snapshot(label + ':entry' + (str(n_it) if kind == 'symseq' else ''))
+                self.run(s.body)
+                self.take_snapshot(label + (str(n_it) if kind == 'symseq' else ''))
             self.take_snapshot(label)
-            if len(pol) > 3 and pol[3] == 'stop':
+            if opts.get('stop'):
                 raise StopExec(label)
+            if kind == 'symseq':
+                return          # contract states (and separately proves) why the sequence is representative
             # leave the loop: havoc what the body wrote
             self.havoc_after_loop(s, label)
             return
         raise OutsideSubset(f'unknown loop policy {kind}')
 
+    def loop_modified(self, s):
+        """names syntactically assigned, stored into, or passed to a call inside the loop body"""
+        scal, arrs = set(), set()
+        for n in ast.walk(ast.Module(body=s.body, type_ignores=[])):
+            if isinstance(n, (ast.Assign, ast.AugAssign)):
+                tg = n.targets if isinstance(n, ast.Assign) else [n.target]
+                for t in tg:
+                    for e in ([t] if not isinstance(t, ast.Tuple) else t.elts):
+                        if isinstance(e, ast.Name):
+                            scal.add(e.id)
+                        elif isinstance(e, ast.Subscript) and isinstance(e.value, ast.Name):
+                            arrs.add(e.value.id)
+            elif isinstance(n, ast.For) and isinstance(n.target, ast.Name):
+                scal.add(n.target.id)
+            elif isinstance(n, ast.Call):
+                for a in n.args:
+                    if isinstance(a, ast.Name):
+                        arrs.add(a.id)
+        return scal, arrs
+
+    def havoc_loop_state(self, s, opts, n_it=0):
+        """generic iteration: forget everything the loop may have changed in earlier iterations,
+        except what the contract's invariant (opts) says about it"""
+        scal, arrs = self.loop_modified(s)
+        keep = set(opts.get('keep', ()))
+        for name in sorted(arrs):
+            v = self.env.get(name)
+            if name in keep or v is None:
+                continue
+            custom = opts.get('havoc_fn', {}).get(name)
+            if isinstance(v, ArrObj):
+                if custom is not None:
+                    v.st = ArrState(custom(self, v, n_it))
+                else:
+                    f = z3.Function(f'{v.name}_g{next(self.fresh)}', *([I] * v.ndim), RS)
+                    v.st = ArrState(f)
+            elif isinstance(v, LocalArr):
+                if custom is not None:
+                    v.vals = list(custom(self, v, n_it))
+                else:
+                    k = next(self.fresh)
+                    v.vals = [z3.Real(f'{self.fp}{name}_g{k}_{q}') for q in range(len(v.vals))]
+        for name in sorted(scal):
+            if name not in self.env or name in keep or name == s.target.id:
+                continue
+            v = self.env[name]
+            if self.arrlike(v) or isinstance(v, (tuple, Opaque)) or v is None or isinstance(v, str):
+                continue
+            custom = opts.get('scalars', {}).get(name)
+            if custom is not None:
+                val, cons = custom(self, n_it)
+                self.env[name] = val
+                self.pc.extend(cons)
+                continue
+            srt = R(v).sort()
+            self.env[name] = z3.Const(f'{self.fp}{name}_g{next(self.fresh)}', srt)
+
     def havoc_after_loop(self, s, label):
-        entry = self.snap[label + ':entry']
+        entry = self.snap[label + ':pre']
         for a in self.arrays:
             st_entry = entry['arr'].get(a.uid)
             if st_entry is not None and a.st is not st_entry:
@@ -788,14 +866,6 @@ class Ex:
 
 class _Return(Exception):
     pass
-
-
-_orig_run = Ex.run
-
-
-def _run(self, stmts):
-    # a `return` inside an inlined callee must stop only that callee
-    _orig_run(self, stmts)
 
 
 def _inline(self, fnode, args, callnode=None):
